@@ -416,6 +416,11 @@ def run_zone(case):
             missing = sorted(signed_ref - set(signed))
             raise Violation("nsec", f"set handed to the signer differs: extra {extra!r} missing {missing!r} duplicates {len(signed) - len(set(signed))}", "signed-set")
         classes.add("chain-checked")
+        # label-by-label order differs from the order of a flattened (dotted / wire) spelling
+        if sorted(want_names) != sorted(want_names, key=lambda k: b".".join(k)):
+            classes.add("dotted-order-differs")
+        if sorted(want_names) != sorted(want_names, key=lambda k: b"".join(bytes([len(l)]) + l for l in k)):
+            classes.add("wire-order-differs")
     cuts = [k for k in content if k != apex and any(t == 2 for (t, c) in content[k])]
     glue = [k for k in content if any(len(k) > len(c) and k[: len(c)] == c for c in cuts)]
     ents = set()
@@ -445,8 +450,12 @@ def zone_cases(draw):
     origin = draw(st.one_of(st.just([b"example", b""]), st.just([b"Example", b"COM", b""]), G.abs_name(max_wire=20)))
     labs = [b"a", b"b", b"c", b"sub", b"ns", b"*", b"Www", b"\x00", b"z"]
     rels = [[], [b"a"], [b"b", b"a"], [b"c", b"b", b"a"], [b"sub"], [b"ns", b"sub"], [b"x", b"ns", b"sub"], [b"*"], [b"*", b"a"], [b"Www"], [b"z", b"y", b"x"]]
+    # siblings of names that have descendants, differing from them by a tail that starts with an
+    # octet below or at '.' (0x2e) -- canonical order compares label by label, so `a` < `b.a` <
+    # `a-1`, whatever a flattened text or wire spelling would suggest -- and a label with a dot in it
+    tails = [[b"a-1"], [b"A\x00"], [b"a!"], [b"a."], [b"a.b"], [b"sub-net"], [b"SUB\x2dnet", b"x"], [b"b-", b"a"], [b"b\x00", b"a"], [b"ns ", b"sub"]]
     extra = draw(st.lists(st.lists(st.sampled_from(labs), min_size=1, max_size=3), max_size=3))
-    pool = rels + extra
+    pool = rels + extra + draw(st.lists(st.sampled_from(tails), max_size=4))
     records = []
     ctx = {"origin": origin, "pool": [p + origin for p in pool]}
     soa = draw(R.record(ctx=ctx, name="SOA"))
@@ -485,6 +494,6 @@ def parts(tier):
              shards={"quick": 2, "thorough": 8}),
         Part("zone", run_zone, strategy=zone_cases(), n={"quick": 2000, "thorough": 50000},
              require={"delegation": 200, "glue": 50, "empty-non-terminal": 100, "occluded-at-cut": 50, "wildcard": 100,
-                      "chain-checked": 500, "nsec-multi-window": 100, "relativize": 200, "absolute": 200, "apex-only": 5},
+                      "chain-checked": 500, "dotted-order-differs": 100, "wire-order-differs": 100, "nsec-multi-window": 100, "relativize": 200, "absolute": 200, "apex-only": 5},
              shards={"quick": 8, "thorough": 16}),
     ]
